@@ -196,10 +196,41 @@ func (b *xbuilder) resolveFree(fv *ssa.FreeVar) ssa.Value {
 	}
 	for i, f := range fn.FreeVars {
 		if f == fv && i < len(mc.Bindings) {
+			// a literal nested in a literal captures the outer literal's free variable
+			if outer, ok := mc.Bindings[i].(*ssa.FreeVar); ok {
+				if r := b.resolveFree(outer); r != nil {
+					return r
+				}
+			}
 			return mc.Bindings[i]
 		}
 	}
 	return nil
+}
+
+// ConstString returns the value of a string constant declared in a loaded package.
+func (c *Ctx) ConstString(pkgPath, name string) (string, bool) {
+	var tp *types.Package
+	for _, p := range c.Pkgs {
+		if p.PkgPath == pkgPath {
+			tp = p.Types
+		}
+		if tp == nil {
+			for path, imp := range p.Imports {
+				if path == pkgPath {
+					tp = imp.Types
+				}
+			}
+		}
+	}
+	if tp == nil {
+		return "", false
+	}
+	k, ok := tp.Scope().Lookup(name).(*types.Const)
+	if !ok {
+		return "", false
+	}
+	return k.Val().ExactString(), true
 }
 
 func (b *xbuilder) expr(v ssa.Value, d int, onpath map[ssa.Value]bool) *X {
